@@ -82,8 +82,14 @@ bool gen_scenario(Ctx &a, Scenario &sc, int type, int maxdim, int F, bool *mixed
 // declared on the noise model's own grid, so that the calibration frequencies fall BETWEEN its knots.
 struct Noise {
     double nf0 = 1e-4, tr0 = 0, slope = 0, fa = 0, fb = 0; int grid = 0, np = 2; bool with_tr = false, falling = false;
+    // table mode (the "through the given points" clause): arbitrary, non-collinear values at knots tf that include every
+    // calibration frequency; the model is only ever evaluated AT knots
+    std::vector<double> tf, tshape;      // knot frequencies, shape factor (1 .. 1 + slope) at each knot
     double x(double f) const { if (fb <= fa) return 0; double t = (f - fa) / (fb - fa); return falling ? 1 - t : t; }
-    double at(double s0, double f) const { return s0 * (1 + slope * x(f)); }
+    double at(double s0, double f) const {
+        if (!tf.empty()) { for (size_t k = 0; k < tf.size(); k++) if (tf[k] == f) return s0 * tshape[k]; return NAN; }
+        return s0 * (1 + slope * x(f));
+    }
 };
 
 // declare the noise model to libvna using the chosen grid variant
@@ -94,6 +100,7 @@ int set_m_error(Runner &run, const Scenario &sc, const Noise &n) {
     case 1: for (int f = 0; f < sc.F; f++) { nf.push_back(n.at(n.nf0, sc.freq[f])); tr.push_back(n.at(n.tr0, sc.freq[f])); }   // on the calibration grid, NULL frequency vector
         return vnacal_new_set_m_error(run.vnp, nullptr, sc.F, nf.data(), n.with_tr ? tr.data() : nullptr);
     default:    // own grid of np points spanning [fa, fb]
+        if (!n.tf.empty()) { for (double f : n.tf) { fv.push_back(f); nf.push_back(n.at(n.nf0, f)); tr.push_back(n.at(n.tr0, f)); } return vnacal_new_set_m_error(run.vnp, fv.data(), (int)fv.size(), nf.data(), n.with_tr ? tr.data() : nullptr); }
         for (int i = 0; i < n.np; i++) { double f = n.fa + (n.fb - n.fa) * i / (n.np - 1); fv.push_back(f); nf.push_back(n.at(n.nf0, f)); tr.push_back(n.at(n.tr0, f)); }
         return vnacal_new_set_m_error(run.vnp, fv.data(), n.np, nf.data(), n.with_tr ? tr.data() : nullptr);
     }
@@ -215,10 +222,21 @@ void pbt_property(Ctx &c) {
         // keep sigma(f) inside the property's domain over the whole span (sigma_nf <= 1e-2, sigma_tr <= 1e-1); this clause
         // is about interpolation, so it stays a decade below the top, where the iteratively re-weighted solve converges easily
         n.nf0 = std::min(n.nf0, 1e-3 / (1 + n.slope)); if (n.with_tr) n.tr0 = std::min(n.tr0, 1e-2 / (1 + n.slope));
+        // half of the cases: CURVED data.  The knots are 0.8 fmin, every calibration frequency, optionally a point between
+        // neighbours, and 1.25 fmax; the value at each knot is arbitrary (not on a line).  Every calibration frequency is a
+        // knot, so "through the given points" fixes the expected value there without any model of the interpolation.
+        bool curved = a.boolean();
+        if (curved) {
+            n.tf.push_back(0.8 * sc.freq[0]);
+            for (int f = 0; f < sc.F; f++) { n.tf.push_back(sc.freq[f]); if (f + 1 < sc.F && a.boolean()) n.tf.push_back(0.5 * (sc.freq[f] + sc.freq[f + 1])); }
+            n.tf.push_back(1.25 * sc.freq.back());
+            for (size_t k = 0; k < n.tf.size(); k++) n.tshape.push_back(1 + n.slope * (double)a.unit());
+            n.np = (int)n.tf.size(); n.fa = n.tf.front(); n.fb = n.tf.back();
+        }
         add_noise(a, sc, n, -1);
         Noise nb = n; nb.grid = 1;
         c.note("interp: %s  sigma_nf %.3g sigma_tr %.3g slope %.2f %s, own grid of %d knots on %.6g..%.6g, calibration %.6g..%.6g", sc.describe().c_str(), n.nf0, n.with_tr ? n.tr0 : 0.0, n.slope, n.falling ? "falling" : "rising", n.np, n.fa, n.fb, sc.freq[0], sc.freq.back());
-        c.label("class:noise-grid-interpolation"); c.label(n.with_tr ? "interp:nf+tr" : "interp:nf-only"); { char gl[32]; snprintf(gl, sizeof gl, "interp:knots=%d", n.np); c.label(gl); }
+        c.label("class:noise-grid-interpolation"); c.label(n.with_tr ? "interp:nf+tr" : "interp:nf-only"); c.label(curved ? "interp:curved-through-knots" : "interp:straight-line-between-knots"); { char gl[32]; snprintf(gl, sizeof gl, "interp:knots=%d", n.np); c.label(gl); }
         std::vector<Mat> oa, ob; std::string ma, mb; int ea, eb;
         int ra = solve(c, sc, &n, 1e-9, &oa, ma, ea);
         int rb = solve(c, sc, &nb, 1e-9, &ob, mb, eb);
